@@ -114,7 +114,9 @@ CLAIMED = {
         text=("Proof (Coq): for every optimizer in the pinned structurally-elitist set (57; the set is recomputed from the source on every run and must "
               "contain the pinned one) and every step that edits the population only through its listed writes, each generation contains an agent at "
               "least as good as every agent of every earlier generation, on internal costs and - via the sign restoration - in the task's direction for "
-              "min and max alike; hence best_solution is the best ever recorded. Uses the regenerated greedy/trim helpers (C16). 13 further optimizers, elitist by observation "
+              "min and max alike; hence best_solution is the best ever recorded. Uses the regenerated greedy/trim helpers (C16). The judgement behind each map-style write "
+              "('every slot's new agent is not worse than its incumbent') is re-derived inside Coq: element functions extracted as programs (gen/ElitProgs.v) and decided by an "
+              "analysis proved sound for every oracle (ElitLang.agood_sound; C17_wmap_judgement_rederived). 13 further optimizers, elitist by observation "
               "only (monotone in >= 950 runs each on the pinned tree), are covered by SEARCH ONLY, pinned by the hash of their source; fresh and reused instances, noisy / stateful objectives (a kept agent keeps the cost recorded when it was built)."),
         note=TB + " Classification is conservative (syntactic); step_conforms is a hypothesis; no NaN costs; population_size >= 1.",
         technique="Coq proof (keeps_best for each elitist population write, induction over writes and cycles) + search over the elitist set",
